@@ -144,6 +144,9 @@ func NumberOfInducedPaths(g Graph, maxLength int) []int {
 		maxLength = n - 1
 	}
 	r := make([]int, n)
+	if n == 0 {
+		return r
+	}
 	type path struct {
 		p                []int
 		length           int
@@ -162,7 +165,9 @@ func NumberOfInducedPaths(g Graph, maxLength int) []int {
 
 				options := sortints.SetMinus(h.Neighbours(p.p[len(p.p)-1]), p.bannedNeighbours)
 
-				r[p.length+1] += len(options)
+				if len(options) > 0 {
+					r[p.length+1] += len(options)
+				}
 
 				if p.length >= maxLength-1 {
 					continue
